@@ -90,7 +90,9 @@ func (ip *Interp) globalCell(g *ssa.Global) *Value {
 		*cell = v
 	} else {
 		*cell = zero(deref(g.Type()))
-		if !strings.HasPrefix(g.Pkg.Pkg.Path(), ip.repoPrefix) {
+		if st, isStruct := (*cell).(Struct); isStruct && len(st) == 0 {
+			// zero-size global (e.g. encoding/binary.BigEndian): nothing to initialise
+		} else if !strings.HasPrefix(g.Pkg.Pkg.Path(), ip.repoPrefix) {
 			ip.ex.note("uninitialised stdlib global read: " + g.Pkg.Pkg.Path() + "." + g.Name())
 		}
 	}
